@@ -355,9 +355,13 @@ class ListContext(contexts.Context):
 
 
 class Family:
-    """layers: [{fns: [ospec], x: bool}] nearest first.  Builds root <- tick layer <- layer[n-1] <- .. <- layer[0]"""
+    """layers: [{fns: [ospec], x: bool}] nearest first.  Builds root <- tick layer <- layer[n-1] <- .. <- layer[0].
+    An overload is registered with exclusive=True when its layer has `x` or the ospec itself has `x`
+    (only some registrations of a layer saying so).  `reg_order`: [(layer index, overload id)] - the order of the
+    register_function calls (default: layer by layer from the outermost, each in list order); `fds`: overload
+    id -> FunctionDefinition objects to reuse instead of building new ones."""
 
-    def __init__(self, layers, ordered=False):
+    def __init__(self, layers, ordered=False, reg_order=None, fds=None):
         self.spec = layers
         self.fds = {}           # fid -> FunctionDefinition
         self.invalid = []       # fids that register_function rejected
@@ -369,33 +373,142 @@ class Family:
         self.ctxs = []
         for layer in reversed(layers):
             ctx = cls(ctx)
-            order = []
-            for o in layer['fns']:
-                fd = build_fd(o)
-                try:
-                    ctx.register_function(fd, exclusive=bool(layer.get('x')))
-                except exceptions.InvalidMethodException:
-                    self.invalid.append(o['id'])
-                    continue
-                self.fds[o['id']] = fd
-                order.append(fd)
-            if ordered:
-                ctx.order['f'] = order
             self.ctxs.insert(0, ctx)
         self.ctx = ctx
+        if reg_order is None:
+            reg_order = [(li, o['id']) for li in reversed(range(len(layers))) for o in layers[li]['fns']]
+        by_id = {(li, o['id']): o for li, layer in enumerate(layers) for o in layer['fns']}
+        for li, fid in reg_order:
+            o = by_id[(li, fid)]
+            fd = fds[fid] if fds and fid in fds else build_fd(o)
+            try:
+                self.ctxs[li].register_function(fd, exclusive=bool(layers[li].get('x')) or bool(o.get('x')))
+            except exceptions.InvalidMethodException:
+                self.invalid.append(fid)
+                continue
+            self.fds[fid] = fd
+        if ordered:
+            for li, layer in enumerate(layers):
+                self.ctxs[li].order['f'] = [self.fds[o['id']] for o in layer['fns'] if o['id'] in self.fds]
+
+    def layer_exclusive(self, li):
+        """the layer is exclusive for the name when ANY accepted registration said so"""
+        layer = self.spec[li]
+        return any(bool(layer.get('x')) or bool(o.get('x')) for o in layer['fns'] if o['id'] in self.fds)
 
     def enc_layers(self):
         out = []
-        for layer, ctx in zip(self.spec, self.ctxs):
+        for li, layer in enumerate(self.spec):
             fs = []
             for o in layer['fns']:
                 if o['id'] in self.fds:
                     fs.append(enc_fd(self.fds[o['id']], o['id']))
-            out.append(dict(fs=fs, x=bool(layer.get('x')) and bool(fs)))
+            out.append(dict(fs=fs, x=self.layer_exclusive(li)))
         return out
 
     def set_order(self, layer_index, fids):
         self.ctxs[layer_index].order['f'] = [self.fds[i] for i in fids if i in self.fds]
+
+
+class History:
+    """A forest of real Contexts driven step by step through the public API (create_child_context,
+    register_function, delete_function, runner.call).  Keeps its OWN record of what the API was told - which
+    overloads each context holds under which name and for which names some registration said exclusive=True
+    (delete_function drops the overload and the name's flag, as Context does) - and never reads yaql's state.
+    steps: ['root'] | ['child', i] | ['reg', i, fid, exclusive] | ['del', i, fid] | ['call', i, cspec, name]
+    defs: {fid: ospec}; the same fid always means the same FunctionDefinition object."""
+
+    def __init__(self, defs, cls=None):
+        self.defs = {int(k): v for k, v in defs.items()}
+        self.cls = cls or contexts.Context
+        self.fds = {}
+        base = ROOT.create_child_context()
+        base.register_function(tick, name='tick')
+        for i, v in enumerate(CORPUS):
+            base['$v%d' % i] = v
+        self.base = base
+        self.ctxs = []
+        self.parent = []
+        self.held = []          # per context: [fid] in registration order
+        self.excl = []          # per context: set of names
+        self.msteps = []        # the steps as the model is told them
+        self.invalid = []
+
+    def fd(self, fid):
+        if fid not in self.fds:
+            self.fds[fid] = build_fd(self.defs[fid])
+        return self.fds[fid]
+
+    def fname(self, fid):
+        return self.defs[fid].get('fname', 'f')
+
+    def chain(self, i, name):
+        out = []
+        while i is not None:
+            out.append(([self.fds[f] for f in self.held[i] if self.fname(f) == name], name in self.excl[i]))
+            i = self.parent[i]
+        return out
+
+    def view(self, i):
+        return _View(self.ctxs[i], self.fds)
+
+    def do(self, st):
+        """one non-call step on the real contexts and in the record"""
+        k = st[0]
+        if k == 'root':
+            self.ctxs.append(self.cls(self.base))
+            self.parent.append(None)
+            self.held.append([])
+            self.excl.append(set())
+            self.msteps.append(dict(k='root'))
+        elif k == 'child':
+            self.ctxs.append(self.ctxs[st[1]].create_child_context())
+            self.parent.append(st[1])
+            self.held.append([])
+            self.excl.append(set())
+            self.msteps.append(dict(k='child', i=st[1]))
+        elif k == 'reg':
+            _, i, fid, x = st
+            fd = self.fd(fid)
+            try:
+                self.ctxs[i].register_function(fd, exclusive=bool(x))
+            except exceptions.InvalidMethodException:
+                self.invalid.append(fid)
+                return
+            if fid not in self.held[i]:
+                self.held[i].append(fid)
+            if x:
+                self.excl[i].add(self.fname(fid))
+            self.msteps.append(dict(k='reg', i=i, name=self.fname(fid), fid=fid, x=bool(x)))
+        elif k == 'del':
+            _, i, fid = st
+            self.ctxs[i].delete_function(self.fd(fid))
+            if fid in self.held[i]:
+                self.held[i].remove(fid)
+            self.excl[i].discard(self.fname(fid))
+            self.msteps.append(dict(k='del', i=i, name=self.fname(fid), fid=fid))
+        else:
+            raise ValueError(st)
+
+    def call(self, st, call):
+        """a call step: (real outcome, what the written rules give for the family of this moment)"""
+        _, i, _, name = st
+        v = self.view(i)
+        real = run_real(v, call, name)
+        exp = spec_resolve(v, call, name, chain=self.chain(i, name))
+        if 'id' in exp:
+            exp['id'] = [f for f, fd in self.fds.items() if fd is exp['id']][0]
+        self.msteps.append(dict(k='call', i=i, name=name, call=call.enc()))
+        return real, exp
+
+    def enc(self):
+        return dict(defs=[enc_fd(fd, fid) for fid, fd in sorted(self.fds.items())], steps=self.msteps)
+
+
+class _View:
+    def __init__(self, ctx, fds):
+        self.ctx = ctx
+        self.fds = fds
 
 
 # ---------------------------------------------------------------- calls
@@ -712,21 +825,36 @@ def _is_lazy(t):
     return isinstance(t, yaqltypes.LazyParameterType)
 
 
-def spec_resolve(fam, call, name='f'):
-    """-> dict(err=..) | dict(id=.., log=[..]); `log` is None when the rules do not determine it"""
+def spec_resolve(fam, call, name='f', chain=None):
+    """-> dict(err=..) | dict(id=.., log=[..]); `log` is None when the rules do not determine it.
+    `chain`: the contexts from the nearest outward as [(overloads registered under the name, exclusive)] when
+    the caller keeps its own record of what was registered (call histories); default: the raw state of the
+    real Context objects.  The result also carries `nmapped` / `nmatch` (candidates that passed rule 3 /
+    type-compatible candidates of the deciding layer) for the input statistics."""
+    r = _spec_resolve(fam, call, name, chain)
+    r.setdefault('nmapped', 0)
+    r.setdefault('nmatch', 0)
+    return r
+
+
+def _spec_resolve(fam, call, name, chain):
     method = call.recv is not utils.NO_VALUE
     # rules 1, 2: layers, nearest first, stop behind an exclusive layer
     layers = []
-    c = fam.ctx
-    while c is not None:
-        if not isinstance(c, contexts.Context):
-            break
-        fns = [fd for fd in c._functions.get(name, ()) if (fd.is_method if method else fd.is_function)]
+    if chain is None:
+        chain = []
+        c = fam.ctx
+        while c is not None:
+            if not isinstance(c, contexts.Context):
+                break
+            chain.append((list(c._functions.get(name, ())), name in c._exclusive_funcs))
+            c = c.parent
+    for registered, exclusive in chain:
+        fns = [fd for fd in registered if (fd.is_method if method else fd.is_function)]
         if fns:
             layers.append(fns)
-        if name in c._exclusive_funcs:
+        if exclusive:
             break
-        c = c.parent
     if not layers:
         return dict(err='Unknown', log=[])
     allc = [fd for layer in layers for fd in layer]
@@ -760,7 +888,7 @@ def spec_resolve(fam, call, name='f'):
     for fd, (st, kt) in flat:
         sigs.add((tuple(_is_lazy(t) for t in st), tuple(sorted((k, _is_lazy(t)) for k, t in kt.items()))))
     if len(sigs) > 1:
-        return dict(err='Ambiguous', log=[])
+        return dict(err='Ambiguous', log=[], nmapped=len(flat))
     if not flat:
         return dict(err='NoMatching', log=[])
     # rule 5: evaluate the non-lazy arguments once
@@ -784,9 +912,9 @@ def spec_resolve(fam, call, name='f'):
             continue
         best = [fd for fd, m in ms if all(o is fd or _more_specific(m, om) for o, om in ms)]
         if len(best) == 1:
-            return dict(id=best[0], log=log)
-        return dict(err='Ambiguous', log=log)
-    return dict(err='NoMatching', log=log)
+            return dict(id=best[0], log=log, nmapped=len(flat), nmatch=len(ms))
+        return dict(err='Ambiguous', log=log, nmapped=len(flat), nmatch=len(ms))
+    return dict(err='NoMatching', log=log, nmapped=len(flat))
 
 
 def _evaluate(a, call, log):
